@@ -42,6 +42,10 @@ const Statement * RETURNStatement::doit(Context& ctx) const
 {
   if (_exp != nullptr)
     ctx.saveReturned(_exp->value(ctx));
+  else
+    /* nothing is returned: a result left by an earlier run is not the
+     * result of this one */
+    delete ctx.dropReturned();
   ctx.returnCondition(true);
   return _next;
 }
